@@ -68,5 +68,22 @@ PROPS['C01'] = dict(
       + [U('hist_opt%d_n3k3' % o, 'C01_history.cpp', ['VP_N=3', 'VP_K=3', 'VP_OPT=%d' % o], tiers=['thorough'], weight=30, must_reach=_tags1) for o in range(6)]
       + [U('hist_opt%d_n4k2' % o, 'C01_history.cpp', ['VP_N=4', 'VP_K=2', 'VP_OPT=%d' % o], tiers=['thorough'], weight=30, must_reach=_tags1) for o in (0, 1)])
 
+# ------------------------------------------------------------------------------------------------ C13
+def _cub(name, d, sizes, per=(0, 0, 0), vert=0, mode='geom', vmax=2, tiers=('quick', 'thorough'), weight=3, t='double'):
+    defs = ['VP_D=%d' % d] + ['VP_S%d=%d' % (i, sizes[i]) for i in range(d)] + ['VP_P%d=%d' % (i, per[i]) for i in range(d)] + ['VP_VERT=%d' % vert, 'VP_VMAX=%d' % vmax, 'VP_T=' + t]
+    defs += {'geom': ['VP_GEOM'], 'vals': ['VP_SYMVALS'], 'order': ['VP_SYMVALS', 'VP_ORDER'], 'all': ['VP_GEOM', 'VP_SYMVALS', 'VP_ORDER']}[mode]
+    return U(name, 'C13_cubical.cpp', defs, tiers=tiers, weight=weight)
+PROPS['C13'] = dict(
+  explanation='Bounded symbolic execution of the real Bitmap_cubical_complex(_periodic_boundary_conditions)_base (clang IR of the headers in /repo) for a table of grid shapes; the queried cell index and every top-cell / vertex value are solver variables. z3 decides on every path: dd=0 with signs alternating along the enumeration, boundary/coboundary are converse and equal the grid geometry recomputed by an independent mixed-radix oracle, incidence numbers are +-1, the cell value is the min over containing top cells (max over vertices), the filtration order is total, monotone and faces-first.',
+  bounds=dict(quick='incidence/geometry clauses (symbolic cell): 1x3, 2x3, 3, 2x2x1, 2x2x2, torus 3x3 and 3x3x3, cylinders 3x2, 2x3, 3x1x2, vertex-input 2x2 and cylinder; value clause (symbolic values 0..2 + symbolic cell): 2x2, 1x3, 2x2 from vertices, cylinder 3x1; order clause: 2x2 (values 0..1), 3 (1-d)', thorough='+ value clause on 2x3, torus 3x3, 2x2x2; order clause 2x2 with values 0..2; float instantiation'),
+  outside=['grids larger than the listed shapes', 'periodic sides shorter than 3', 'Perseus file constructors (iostream)', 'persistence of the complex (see C02)'],
+  units=[_cub('geom_1x3', 2, (1, 3)), _cub('geom_2x3', 2, (2, 3)), _cub('geom_3_1d', 1, (3,)), _cub('geom_2x2x1', 3, (2, 2, 1), weight=5), _cub('geom_2x2x2', 3, (2, 2, 2), weight=8),
+         _cub('geom_torus3x3', 2, (3, 3), per=(1, 1, 0), weight=5), _cub('geom_cyl3x2', 2, (3, 2), per=(1, 0, 0)), _cub('geom_cyl2x3', 2, (2, 3), per=(0, 1, 0)), _cub('geom_torus3x3x3', 3, (3, 3, 3), per=(1, 1, 1), weight=12), _cub('geom_cyl3x1x2', 3, (3, 1, 2), per=(1, 0, 0), weight=6),
+         _cub('geom_2x2_vert', 2, (2, 2), vert=1), _cub('geom_cyl3x2_vert', 2, (3, 2), per=(1, 0, 0), vert=1),
+         _cub('vals_2x2', 2, (2, 2), mode='vals', weight=6), _cub('vals_1x3', 2, (1, 3), mode='vals', weight=4), _cub('vals_2x2_vert', 2, (2, 2), vert=1, mode='vals', vmax=1, weight=8), _cub('vals_cyl3x1', 2, (3, 1), per=(1, 0, 0), mode='vals', weight=5),
+         _cub('order_1x2', 2, (1, 2), mode='order', vmax=2, weight=9), _cub('order_2x2', 2, (2, 2), mode='order', vmax=1, tiers=['thorough'], weight=30), _cub('order_3_1d', 1, (3,), mode='order', weight=5),
+         _cub('vals_2x3', 2, (2, 3), mode='vals', tiers=['thorough'], weight=20), _cub('vals_torus3x3', 2, (3, 3), per=(1, 1, 0), mode='vals', vmax=1, tiers=['thorough'], weight=20), _cub('order_2x2_v2', 2, (2, 2), mode='order', vmax=2, tiers=['thorough'], weight=20),
+         _cub('all_2x2_float', 2, (2, 2), mode='all', vmax=1, t='float', tiers=['thorough'], weight=20), _cub('vals_2x2x2', 3, (2, 2, 2), mode='vals', vmax=1, tiers=['thorough'], weight=25)])
+
 NOT_APPLICABLE = {}
 NOTES = 'Clauses outside every claim: real thread schedules/TBB execution (engine is sequential), iostream text I/O, GMP arbitrary precision, Eigen-based Coxeter point location under general affine maps, SIMD paths of boost::unordered_flat_map (compiled with -U__SSE2__), allocation failure, inputs beyond the stated bounds.'
